@@ -226,6 +226,29 @@ def run(chk, tier):
                                 item, model = make_item(derive, level, named, fields, level)
                                 reqs.append({"derive": derive, "item": item})
                                 metas.append((item, model, "%s/%s" % (derive, level)))
+    # implicit delegation to the single field (no attribute of the struct's / variant's own), alone, under a shared default that
+    # the variant does not use... and under a *wrapping* shared format (`_variant`), which may also refer to the field itself
+    for derive in ("Display", "LowerHex"):
+        for named in (False, True):
+            for form in forms:
+                f = Field(0, form, "none", derive, named)
+                gens = (["'a"] if "'a" in f.ty else []) + ([f.param + ": Tr" if form in ("qassoc", "assoc") else f.param] if f.generic else [])
+                gdecl = "<%s>" % ", ".join(gens) if gens else ""
+                body = ("{ %s: %s }" % (f.name, f.ty)) if named else "(%s)" % f.ty
+                own = {nows("%s : derive_more :: core :: fmt :: %s" % (f.ty, derive))} if f.generic else set()
+                dbg = {nows("%s : derive_more :: core :: fmt :: Debug" % f.ty)} if f.generic else set()
+                a = ATTR[derive]
+                variants = [
+                    ("implicit/struct", "struct S%s %s%s" % (gdecl, body, "" if named else ";"), own),
+                    ("implicit/variant", 'enum S%s { V %s, #[%s("w")] W }' % (gdecl, body, a), own),
+                    ("implicit/variant-under-wrapping-shared", '#[%s("<{_variant}>")] enum S%s { V %s, #[%s("w")] W }' % (a, gdecl, body, a), own),
+                    ("implicit/variant-under-wrapping-shared-arg", '#[%s("<{}>", _variant)] enum S%s { V %s, #[%s("w")] W }' % (a, gdecl, body, a), own),
+                    ("implicit/variant-under-wrapping-shared-naming-the-field", '#[%s("{_variant} | {%s:?}")] enum S%s { V %s }' % (a, f.name, gdecl, body), own | dbg),
+                    ("implicit/two-variants-under-wrapping-shared", '#[%s("<{_variant}>")] enum S%s { V %s, U %s }' % (a, gdecl, body, body), own),
+                ]
+                for kind, item, model in variants:
+                    reqs.append({"derive": derive, "item": item})
+                    metas.append((item, model, "%s/%s" % (derive, kind)))
     # Debug without container attribute: implicit fields, skip, field-level attributes (on generic and on non-generic fields)
     for named in (False, True):
         for n in (1, 2, 3):
@@ -291,7 +314,7 @@ def run(chk, tier):
           feat = "field-attr-on-non-generic-field" if kind == "Debug/fields" and missing and re.search(r"#\[debug\(\"[^\"]*\"\)\] (?:f\d: )?u8", item) else ""
           chk.outcome("A-%s/%s" % (what, kind))
           chk.violation("in-process: %s bounds (%s) %s" % (what, kind, feat), item, "model: %s\nexpansion: %s" % (sorted(model), sorted(got)))
-    chk.part("A_inprocess", expansions=total_reqs, forms=forms, styles=STYLES, levels=["struct", "variant", "shared default", "shared wrapping", "Debug field attributes / skip / implicit"],
+    chk.part("A_inprocess", expansions=total_reqs, forms=forms, styles=STYLES, levels=["struct", "variant", "shared default", "shared wrapping", "implicit single field (struct, variant, variant under a wrapping shared format)", "Debug field attributes / skip / implicit"],
              oracle="where-clause of the real expansion == model set {type of each referenced generic field : trait of the referencing placeholder} U bound(..) predicates")
     for (item, model, kind) in metas[:: max(1, len(metas) // 6)][:6]:
         chk.sample({"item": item, "expected_where_predicates": sorted(model)})
@@ -326,6 +349,22 @@ def run(chk, tier):
                             mod = "use super::*;\n#[derive(derive_more::%s)]\n%s\npub fn run(r: &mut R) { %s::<%s>(); r.check(\"impl available\", true); }" % (
                                 derive, item, fn, ty)
                             cases.append(Case("c%d" % len(cases), mod, meta={"src": "#[derive(%s)] %s" % (derive, item), "inst": ty}))
+    # implicit delegation of a single-field variant, alone and under a wrapping shared format: the impl must compile and be available
+    for named in (False, True):
+        for form in bforms:
+            f = Field(0, form, "none", "Display", named)
+            if not holds(form, "Display", True):
+                continue
+            gens = (["'a"] if "'a" in f.ty else []) + ([f.param + ": Tr" if form in ("qassoc", "assoc") else f.param] if f.generic else [])
+            gdecl = "<%s>" % ", ".join(gens) if gens else ""
+            body = ("{ %s: %s }" % (f.name, f.ty)) if named else "(%s)" % f.ty
+            inst = (["'static"] if "'a" in f.ty else []) + (["i32"] if f.generic else [])
+            ty = "S<%s>" % ", ".join(inst) if inst else "S"
+            for item in ('enum S%s { V %s, #[display("w")] W }' % (gdecl, body),
+                         '#[display("<{_variant}>")] enum S%s { V %s, #[display("w")] W }' % (gdecl, body),
+                         '#[display("{_variant} | {%s}")] enum S%s { V %s }' % (f.name, gdecl, body)):
+                mod = "use super::*;\n#[derive(derive_more::Display)]\n%s\npub fn run(r: &mut R) { assert_impl::<%s>(); r.check(\"impl available\", true); }" % (item, ty)
+                cases.append(Case("c%d" % len(cases), mod, meta={"src": "#[derive(Display)] %s" % item, "inst": ty}))
     eng = CompileEngine("C04", prelude=PRELUDE, per_bin=max(8, len(cases) // 16 + 1))
     results = eng.run_cases(cases)
     for c in cases:
